@@ -302,6 +302,34 @@ struct Engine {
                         RunNode("bkrep:3-instr", Node{count, {B[i], B[j]}, {}, {B[k]}}, base);
                 }
             }
+        // a block repeat abandoned by writing 1 to the LP bit (icr / stt2), followed by an ordinary block repeat: the second one runs
+        // count+1 times and the in-loop state is clear afterwards
+        for (int how = 0; how < 2; ++how)
+            for (int c2 : {0, 1, 2}) {
+                u32 P = bases[base].pc;
+                std::vector<u16> abort_ins = how == 0 ? std::vector<u16>{0x4F90} : std::vector<u16>{0x0032, 0x8000}; // mov #0x10,icr / mov ##0x8000,stt2
+                std::vector<u16> loop, flat;
+                loop.push_back(0x5C03), loop.push_back(0);
+                loop.push_back(0x67D0);
+                for (u16 w : abort_ins)
+                    loop.push_back(w);
+                loop.push_back(0x67D0);
+                loop[1] = (u16)(P + loop.size() - 1);
+                loop.push_back(0x0000);
+                size_t at = loop.size();
+                loop.push_back((u16)(0x5C00 | c2)), loop.push_back(0);
+                loop.push_back(0x77D0), loop.push_back(0xC601);
+                loop[at + 1] = (u16)(P + loop.size() - 1);
+                loop.push_back(0x0000);
+                flat.push_back(0x67D0);
+                for (u16 w : abort_ins)
+                    flat.push_back(w);
+                flat.push_back(0x67D0), flat.push_back(0x0000);
+                for (int k = 0; k <= c2; ++k)
+                    flat.push_back(0x77D0), flat.push_back(0xC601);
+                flat.push_back(0x0000);
+                Compare(Fmt("bkrep:abandoned-by-%s-then-bkrep", how ? "stt2" : "icr"), loop, 1 + 3 + 1 + 1 + 2 * (c2 + 1), flat, 3 + 1 + 2 * (c2 + 1), base);
+            }
         // count from a register, incl. 255
         for (int count : {0, 1, 255}) {
             Node n{count, {0x67D0}, {}, {0x1B49}};
@@ -401,15 +429,21 @@ struct Engine {
     // ---------------- (D) store ; restore of a loop frame ----------------
     void FrameChecks(int base) {
         for (int depth = 0; depth <= 4; ++depth)
-            for (int via = 0; via < 2; ++via) {
+            for (int via = 0; via < 6; ++via) {
                 VState s = bases[base];
                 s.lp = depth > 0, s.bcn = (u16)depth;
                 for (int i = 0; i < 4; ++i)
                     s.bk[i] = {(u32)(0x02000 + 0x111 * i + (i == 1 ? 0x10000 : 0)), (u32)(0x02800 + 0x123 * i + (i == 2 ? 0x20000 : 0)), (u16)(0x10 + i), 0};
+                // the frame that travels through memory: both ends in page 0 / a block that straddles a 64K page / pages 2 and 3
+                const int pages = via / 2;
+                if (pages == 1)
+                    s.bk[0].end += 0x10000;
+                if (pages == 2)
+                    s.bk[0].start += 0x20000, s.bk[0].end += 0x30000;
                 s.arrn[0] = 2; // arrn0 -> r2
                 s.m[2] = s.br[2] = 0;
                 s.r[2] = 0x6520;
-                std::vector<u16> w = via == 0 ? std::vector<u16>{0x9468, 0x5F48, 0x0000} : std::vector<u16>{0xDADC, 0xDA9C, 0x0000};
+                std::vector<u16> w = via % 2 == 0 ? std::vector<u16>{0x9468, 0x5F48, 0x0000} : std::vector<u16>{0xDADC, 0xDA9C, 0x0000};
                 Out o;
                 if (!Exec(s, w, 2, o)) {
                     if (o.r.outcome == OUT_ASSERT && depth == 4)
@@ -424,7 +458,7 @@ struct Engine {
                 for (int i = 0; i < std::max(depth, 1) && bad.empty(); ++i)
                     if (o.s.bk[i].start != s.bk[i].start || o.s.bk[i].end != s.bk[i].end || o.s.bk[i].lc != s.bk[i].lc)
                         bad = Fmt("frame %d = {%05X,%05X,%u}, expected {%05X,%05X,%u}", i, o.s.bk[i].start, o.s.bk[i].end, o.s.bk[i].lc, s.bk[i].start, s.bk[i].end, s.bk[i].lc);
-                if (bad.empty() && (via == 0 ? o.s.sp != s.sp : o.s.r[2] != s.r[2]))
+                if (bad.empty() && (via % 2 == 0 ? o.s.sp != s.sp : o.s.r[2] != s.r[2]))
                     bad = "pointer register not restored";
                 if (bad.empty()) {
                     // the four memory words: lc, start low, end low, flags (valid bit, start/end high bits)
@@ -438,7 +472,7 @@ struct Engine {
                         bad = "the stored frame words differ from the frame";
                 }
                 if (!bad.empty())
-                    Report(Fmt("frame:depth%d:%s", depth, via ? "arrn" : "sp"), "bkrepsto ; bkreprst does not round-trip: " + bad, w, 2, w, 0, base);
+                    Report(Fmt("frame:depth%d:%s:pages%d", depth, via % 2 ? "arrn" : "sp", pages), "bkrepsto ; bkreprst does not round-trip: " + bad, w, 2, w, 0, base);
             }
     }
 };
